@@ -55,7 +55,18 @@ def handle : List String → String
       | .ok codes =>
         let r := runCodesTrace 2000000 gs codes
         let shown := (r.2.toList.take 4000).map fun (id, pc, h) => id ++ ":" ++ toString pc ++ ":" ++ toString h
+        -- and the last 64 observations (runs longer than 4000 instructions are compared at both ends)
+        let tail := (r.2.toList.drop (r.2.size - 64)).map fun (id, pc, h) => id ++ ":" ++ toString pc ++ ":" ++ toString h
         showVM r.1 ++ "\t" ++ toString r.2.size ++ "\t" ++ (if shown.isEmpty then "-" else ",".intercalate shown)
+          ++ "\t" ++ (if tail.isEmpty then "-" else ",".intercalate tail)
+          ++ "\t" ++ (match r.1.1 with
+                      | .err "panic" =>
+                        let g : Array VVal := (gs.map fun n => VVal.builtin n).toArray
+                        let m0 : VM := { codes := codes, globals := g, frames := [{ codeId := "__main__", pc := 0, base := 0, free := [], spBase := 0 }] }
+                        (match panicDispatchIndex 2000000 m0 0 with
+                         | some k => toString k
+                         | none => "-")
+                      | _ => "-")
   | ["compile", sx, globals] =>
     match decodeProg sx with
     | none => "error\tcannot decode the program"
